@@ -141,6 +141,7 @@ func cmdRun(args []string) int {
 	prop := fs.String("prop", "", "only this property")
 	quiet := fs.Bool("q", false, "no trace")
 	fs.Parse(args)
+	currentProp = *prop
 	sc := scenarioByName(*name)
 	if sc == nil {
 		fmt.Fprintln(os.Stderr, "unknown scenario; known:", strings.Join(scenarioNames(), " "))
@@ -190,6 +191,7 @@ func cmdShard(args []string) int {
 	if c == nil {
 		return 2
 	}
+	currentProp = *prop
 	units := c.Units(*tier)
 	u := units[*unit]
 	ctx := &CheckCtx{Prop: *prop, Tier: *tier, Known: loadKnown(verifDir())}
@@ -364,6 +366,7 @@ func runCheck(c *Check, ctx *CheckCtx) int {
 
 func finishCheck(c *Check, ctx *CheckCtx, units []Unit, results []unitResult, total *Stats) int {
 	vd := verifDir()
+	currentProp = c.Prop
 	if total.Internal != "" {
 		fmt.Fprintf(os.Stderr, "INTERNAL: %s\n", total.Internal)
 		return 2
@@ -520,6 +523,7 @@ func cmdReplay(args []string) int {
 		fmt.Fprintln(os.Stderr, "unknown scenario", rf.Scenario)
 		return 2
 	}
+	currentProp = rf.Property
 	res := runOnce(sc, rf.Choices, rf.Labels, true)
 	for _, l := range res.Trace {
 		fmt.Println(l)
